@@ -94,6 +94,8 @@ ResMatch(kind, e, g) ==
                                          /\ e.ok[i].digest = g.ok[i].digest
                                          /\ (IF "none" \in DOMAIN e.ok[i].caps THEN "none" \in DOMAIN g.ok[i].caps
                                              ELSE "some" \in DOMAIN g.ok[i].caps /\ SM(e.ok[i].caps.some, g.ok[i].caps.some))
+                                         /\ (IF "none" \in DOMAIN e.ok[i].ima THEN "none" \in DOMAIN g.ok[i].ima
+                                             ELSE "some" \in DOMAIN g.ok[i].ima /\ SM(e.ok[i].ima.some, g.ok[i].ima.some))
               [] kind = "script" -> /\ SM(e.ok.script, g.ok.script) /\ g.ok.flags = e.ok.flags
                                     /\ OptSLM(e.ok.prog, g.ok.prog)
 
